@@ -23,7 +23,8 @@ ASSUMPTIONS = [
 EXTRA_FLAGS = ["--verbose-graph", "--verbose-quantization", "--verbose-packing", "--verbose-tensor-purpose", "--verbose-tensor-format", "--verbose-schedule",
                "--verbose-allocation", "--verbose-high-level-command-stream", "--verbose-register-command-stream", "--verbose-operators", "--verbose-weights",
                "--verbose-performance", "--verbose-progress", "--verbose-config", "--show-cpu-operations", "--timing", "--enable-debug-db", "--verbose-all",
-               "--force-symmetric-int-weights"]
+               "--force-symmetric-int-weights", "--show-subgraph-io-summary", "--subgraph-output", "--hillclimb-max-iterations=1", "--hillclimb-max-iterations=7",
+               "--recursion-limit=2000"]
 
 
 def crash_tags(spec, cfg=None):
